@@ -2,6 +2,7 @@ package main
 
 import (
 	"fmt"
+	"os"
 	"runtime/debug"
 
 	"github.com/xujiajun/nutsdb"
@@ -18,6 +19,12 @@ type Runner struct {
 	Class string // scenario class used in signatures
 	Dead  bool   // the database can no longer be used (panic in Commit left the lock held ...)
 	NTx   int
+
+	// FaultSinceOpen: an I/O fault was injected since the last Open. A later Commit may then fail
+	// (the handle may have lost its active segment); that is tolerated as long as it has no effect,
+	// and WriteDead asks the caller to reopen.
+	FaultSinceOpen bool
+	WriteDead      bool
 
 	// when set, called instead of Violate for a per-call mismatch inside a write transaction;
 	// returns true if the mismatch was handled (explained) and should not be reported
@@ -45,6 +52,7 @@ func (r *Runner) Open() bool {
 		return false
 	}
 	r.DB = db
+	r.FaultSinceOpen, r.WriteDead = false, false
 	return true
 }
 
@@ -72,7 +80,13 @@ func (r *Runner) Reopen() bool {
 func (r *Runner) Tx(t TxSpec, expectFail bool) TxOut {
 	r.NTx++
 	r.C.Log("tx %d %s", r.NTx, t.String())
+	if r.Dead || r.DB == nil {
+		return TxOut{}
+	}
 	out := execTx(r.DB, t)
+	if traceOn {
+		fmt.Fprintf(os.Stderr, "TRACE   -> err=%v committed=%v panic=%q\n", out.Err, out.Committed, out.Panic)
+	}
 	r.C.Stat("transactions", 1)
 	r.C.Stat("api_calls_compared", int64(len(out.Res)))
 	if out.Panic != "" {
@@ -103,7 +117,10 @@ func (r *Runner) Tx(t TxSpec, expectFail bool) TxOut {
 		r.C.Stat("committed_transactions", 1)
 	}
 	if t.Mode == "update" || t.Mode == "manual" {
-		if out.Err != nil && !expectFail {
+		if out.Err != nil && !expectFail && r.FaultSinceOpen {
+			r.WriteDead = true
+			r.C.Stat("commits_refused_after_fault", 1)
+		} else if out.Err != nil && !expectFail {
 			r.C.Violate("commit-error:"+panicClass(out.Err.Error()), r.Class, fmt.Sprintf("transaction %d %s failed unexpectedly: %v", r.NTx, t.String(), out.Err))
 		}
 		if out.Err == nil && expectFail {
@@ -117,6 +134,9 @@ func (r *Runner) Tx(t TxSpec, expectFail bool) TxOut {
 
 // CheckObs compares the full observation of the real database with the model.
 func (r *Runner) CheckObs(label string) bool {
+	if r.Dead || r.DB == nil {
+		return false
+	}
 	got, err := obsReal(r.DB, r.U)
 	if err != nil {
 		r.C.Violate("obs-view-error", r.Class, fmt.Sprintf("observation (%s) failed: %v", label, err))
@@ -134,6 +154,9 @@ func (r *Runner) CheckObs(label string) bool {
 }
 
 func (r *Runner) CheckStruct(label string) {
+	if r.Dead || r.DB == nil {
+		return
+	}
 	var err error
 	func() {
 		defer func() {
